@@ -91,6 +91,11 @@ def gen_case(run_seed: int, index: int, tier: str) -> dict:
     if long_dpsk:
         mod = {"scheme": "dpsk", "order": 16, "gray": rng.random() < 0.5, "via": "order", "label_kw": "gray_coding", "size_kw": "order"}
     case = {"mod": mod, "via_registry": rng.random() < 0.25}
+    # hermetic history: a sibling pair of the same scheme and order with the other labeling (or normalisation) is built and used once
+    # in this process before the pair under test is built, as a simulation sweeping over labelings would do
+    sib_keys = [k for k in ("gray", "normalize") if isinstance(mod.get(k), bool)]
+    if sib_keys and rng.random() < 0.2:
+        case["sibling_flip"] = rng.choice(sib_keys)
     try:
         m, _ = C.build_modem(mod, case["via_registry"])
         bps = 1 if scheme == "identity" else int(m.bits_per_symbol)
@@ -156,7 +161,10 @@ def gen_case(run_seed: int, index: int, tier: str) -> dict:
                      # another user's frame of the same shape is modulated by the same object before this one is demodulated
                      "frame_between": rng.random() < 0.3, "between_seed": rng.randrange(1 << 31),
                      # the user looks at the received symbols (scatter plot) before demodulating them
-                     "plot_in_flight": rng.random() < 0.04}
+                     "plot_in_flight": rng.random() < 0.04,
+                     # the caller keeps one pre-allocated frame buffer: an earlier frame in the very same tensor object was modulated by
+                     # the same modulator, then the buffer was refilled in place with this frame's bits
+                     "buffer_reuse": rng.random() < 0.25}
     return case
 
 
@@ -202,6 +210,22 @@ def execute(case: dict) -> RunResult:
         nsy = chk.get("nsym") or len(chk["bits"][0]) // bps
         res.violations.append(Violation(sig, f"C05: {C.mod_name(spec)} ({'registry' if case['via_registry'] else 'direct'}), layout {chk['layout']}, {chk['kind']} sequence of {nsy} symbols after a pre-history of {len(case['pre'])} ops: {msg}"))
 
+    if case.get("sibling_flip"):
+        try:
+            sspec = dict(spec)
+            sspec[case["sibling_flip"]] = not spec[case["sibling_flip"]]
+            smod, sdem = C.build_modem(sspec, case["via_registry"])
+            smod.eval()
+            sdem.eval()
+            with torch.no_grad():
+                gs = torch.Generator().manual_seed(11)
+                sb = torch.randint(0, 2, (2, 12 * bps), generator=gs).to(torch.float32)
+                sy = smod(sb)
+                sdem(sy)
+                sdem(sy, 0.5)
+            res.faults["history.sibling_with_other_labeling_used_first"] += 1
+        except Exception:
+            res.probes["sibling_pair_raised"] += 1  # nothing is asked of the sibling itself
     try:
         mod, demod = C.build_modem(spec, case["via_registry"])
     except C.Inadmissible:
@@ -318,6 +342,19 @@ def execute(case: dict) -> RunResult:
                         violate("symbols_overwritten", "modulating another frame overwrote the symbols returned for the first frame")
                 return super().forward(t, *a, **k)
 
+        if chk.get("buffer_reuse"):
+            real = x.clone()
+            gr = torch.Generator().manual_seed(chk["between_seed"] ^ 0x2F2F)
+            x.copy_(torch.randint(0, 2, tuple(x.shape), generator=gr).to(x.dtype))
+            try:
+                with torch.no_grad():
+                    mod(x)
+            except Exception:
+                pass  # judged on the frame below
+            x.copy_(real)
+            for o in (mod, demod):
+                o.reset_state()
+            res.faults["history.frame_buffer_refilled_in_place"] += 1
         with torch.no_grad():
             out = SequentialModel([mod, _Tap(), demod])(x)
         sym = tap[0]
